@@ -1574,6 +1574,7 @@ func main() {
 	// sub cli: goalign dedup / goalign compress
 	mon.Floor("cli:runs", 200)
 	mon.Floor("long-alignments", 4)
+	mon.Floor("many:distinct>100", 20)
 	mon.Floor("cli:outcome:ok", 250)
 	mon.Floor("cli:dedup", 150)
 	mon.Floor("cli:compress", 80)
@@ -1612,6 +1613,7 @@ func main() {
 		{Name: "exh-dedup", Quick: exhDedupCount / 2, Thorough: exhDedupCount, Run: runExhDedup},
 		{Name: "exh-compress", Quick: exhCompressCount(false), Thorough: exhCompressCount(true), Run: runExhCompress},
 		{Name: "long", Quick: 4, Thorough: 16, Run: runLong},
+		{Name: "many", Quick: 20, Thorough: 200, Run: runMany},
 		{Name: "collisions", Quick: 10, Thorough: 60, Run: runCollisions},
 		{Name: "concurrent", Quick: 96, Thorough: 1600, Race: true, Run: runConcurrent},
 		{Name: "cli", Quick: 330, Thorough: 3000, Serial: true, Run: runCli},
